@@ -801,7 +801,13 @@ def rule_MG1(repo: Repo) -> RuleResult:
         raise AnalysisError(f"MG1: {len(loops)} per-level loops with a recursive call in add_row_margin (expected 1)")
     loop = loops[0]
     lv = loop.target.id
-    if norm(loop.iter) != levels_p:
+    # a local copy of the parameter (X = levels; what inlining a split-off helper leaves behind) stands for the parameter
+    level_names = {levels_p}
+    for s_ in walk_no_nested(f.node):
+        if isinstance(s_, ast.Assign) and len(s_.targets) == 1 and isinstance(s_.targets[0], ast.Name) and isinstance(s_.value, ast.Name) \
+                and s_.value.id in level_names:
+            level_names.add(s_.targets[0].id)
+    if norm(loop.iter) not in level_names:
         res.bad(f, loop, f"for {lv} in {norm(loop.iter)}", f"the subtotals must be computed for the requested levels ({levels_p})")
     # other levels = complement
     others = None
